@@ -744,7 +744,7 @@ class ArchitectureFeatures:
             print(f"   feature_map_storage_mem_area = {self.feature_map_storage_mem_area.name}")
             print(f"   fast_storage_mem_area = {self.fast_storage_mem_area.name}")
 
-    def _read_config(self, section, key, current_value, found=None):
+    def _read_config(self, section, key, current_value, found=None, _visited=None):
         """
         Reads a given key from a particular section in the Vela config file. If the section contains the 'inherit'
         option then we recurse into the section specified. If inherited sections result in multiple keys for a
@@ -761,13 +761,14 @@ class ArchitectureFeatures:
 
         if self.vela_config.has_option(section, "inherit"):
             inheritance_section = self.vela_config.get(section, "inherit")
-            # check for recursion loop
-            if inheritance_section == section:
+            # check for recursion loop (direct or through other sections)
+            _visited = (_visited or ()) + (section,)
+            if inheritance_section in _visited:
                 raise ConfigOptionError(
                     "inherit",
                     f"{inheritance_section}. This references its own section and recursion is not allowed",
                 )
-            result = self._read_config(inheritance_section, key, result, found)
+            result = self._read_config(inheritance_section, key, result, found, _visited)
 
         if self.vela_config.has_option(section, key):
             result = self.vela_config.get(section, key)
